@@ -780,3 +780,18 @@ add('C01.suffix_reused', 'C01', (ES, "      activation_output.name + b'_mul_inpu
 add('C01.twin_suffix_variable', 'C01', (ES, "      weight_tensor.name + b'_scale',\n", "      weight_tensor.name + b'_scales',\n"), (), 'another unique suffix', kind='twin')
 add('C09.ema_keeps_dtype', 'C09', ('utils/calibration_utils.py', "  return smoothing_factor * w + (1.0 - smoothing_factor) * update\n", "  updated = smoothing_factor * w + (1.0 - smoothing_factor) * update\n  if isinstance(w, np.ndarray):\n    updated = updated.astype(w.dtype, copy=False)\n  return updated\n"),
     ('C09.R11', 'C09.R2'), 'the moving average is cast back to the dtype of the old statistic: integer-typed runtime tensors stay at their first sample (seeded b11-C09)')
+
+# blockwise replacement through the whole pipeline (C01.R18 / C19.R14)
+add('C01.es_ops_added_off', 'C01', (ES, "      original_fc_op_idx, ops_added - 1, activation_output_id\n", "      original_fc_op_idx, ops_added, activation_output_id\n"), ('C01.R18', 'C01.R14'),
+    'the replacement reports one operator too many: the op-id map of every later operator is off by one')
+add('C01.es_delete_wrong_op', 'C01', (ES, "  del transformation_input.subgraph.operators[original_fc_op_idx + ops_added]\n", "  del transformation_input.subgraph.operators[original_fc_op_idx + ops_added - 1]\n"), 'C01.R18',
+    'the replacement deletes its own last operator instead of the FULLY_CONNECTED')
+add('C01.es_bmm_shape', 'C01', (ES, "      1,\n      weight_tensor.shape[2],\n  ]\n  intermediate_tensor_shape", "      1,\n      weight_tensor.shape[3],\n  ]\n  intermediate_tensor_shape"), 'C01.R18',
+    'the first RESHAPE of the replacement changes the element count')
+add('C01.es_reshape2_order', 'C01', (ES, "  transformation_input.subgraph.operators.insert(\n      original_fc_op_idx + 4, reshape_op2\n  )", "  transformation_input.subgraph.operators.insert(\n      original_fc_op_idx + 3, reshape_op2\n  )"), 'C01.R18',
+    'the last RESHAPE is inserted before the SUM whose result it reads')
+add('C01.es_relu_reads_output', 'C01', (ES, "    relu_op.inputs = [relu_input_id]\n", "    relu_op.inputs = [activation_output_id]\n"), 'C01.R18',
+    'the RELU of the replacement reads its own output')
+add('C01.es_scale_wrong_type', 'C01', (ES, "      transformation_input.quant_params.scale,\n      schema_py_generated.TensorType.FLOAT32,", "      transformation_input.quant_params.scale,\n      schema_py_generated.TensorType.INT32,"), 'C01.R18',
+    'the scale constant of the replacement is typed INT32')
+add('C01.twin_es_relu_name', 'C01', (ES, "    activation_output.name += b'_relu'\n", ""), (), 'the output tensor keeps its name when a RELU is appended: names stay unique', kind='twin')
